@@ -370,6 +370,8 @@ class PCACD(StreamingDetector):
         intersection = np.sum(
             np.minimum(density_reference["density"], density_test["density"])
         )
-        divergence = 1 - intersection
+        # the intersection of two distributions cannot exceed 1; rounding in the
+        # sum can, which would give a (tiny) negative divergence
+        divergence = max(1 - intersection, 0.0)
 
         return divergence
